@@ -501,7 +501,7 @@ def compile_one(job):
                 pb = build_ma(D)
                 return pb, p_ma(pb)
 
-            problem, MP = call_limited(_build, 30, 10)
+            problem, MP = call_limited(_build, 60, 10)
         except ImplTimeout:
             rec["skip"] = "build-timeout"
             return rec
@@ -636,6 +636,18 @@ def judge(ctx, recs, label, workers=8):
     return res
 
 
+def compile_all(jobs):
+    """every compilation in its own forked process: a time-out (ImplTimeout is raised asynchronously, inside
+    library code) or a mutant must not leave the global Environment's walkers in a state that poisons the
+    compilations that follow, and every compilation starts from the same pristine Environment"""
+    import importlib
+
+    for mod, _, _ in COMPILERS.values():
+        importlib.import_module(mod)  # imported once here, inherited by the forked workers
+    with Pool(8, maxtasksperchild=1) as pool:
+        return pool.map(compile_one, jobs, chunksize=1)
+
+
 def run(ctx):
     q = ctx.quick
     per = 22 if q else 90
@@ -652,8 +664,7 @@ def run(ctx):
             cid += 1
             g = gens[1] if i % 4 == 3 else gens[0]
             jobs.append((cid, g.problem(), cname))
-    with Pool(8, maxtasksperchild=60) as pool:
-        recs = pool.map(compile_one, jobs, chunksize=2)
+    recs = compile_all(jobs)
     stats = {c: {"generated": 0, "skipped": 0, "raised": 0, "judged": 0, "too-big": 0} for c in COMPILERS}
     batch = []
     for r in recs:
@@ -661,12 +672,12 @@ def run(ctx):
         s["generated"] += 1
         if r["skip"].startswith("HARNESS"):
             raise MachineryError("harness error: %s" % r["detail"])
-        if r["skip"]:
+        if r["skip"] == "unsupported-kind":
             s["skipped"] += 1
-            why = ":".join(r["skip"].split(":")[:2])
-            s.setdefault("skip-reasons", {})
-            s["skip-reasons"][why] = s["skip-reasons"].get(why, 0) + 1
             continue
+        if r["skip"]:
+            # the generator's own problems must build (public API) within the generous limit
+            raise MachineryError("problem %d could not be built / projected: %s" % (r["cid"], r["skip"]))
         if r["raised"] != "none":
             s["raised"] += 1
             batch.append(r)
@@ -878,6 +889,15 @@ def selftest(ctx):
                         if not any(b["qa"] == a["name"] + SEP + act["name"] and b["pa"] for b in r["back"]):
                             act["pre"] = [C(False)]
             variant(base, "goal-original-holds-compiled-unreachable", aux_true)
+
+            def aux_writes(r):  # a fake-goal action also sets an environment fluent
+                f = r["MQ"]["env"][0]
+                for a in r["MQ"]["agents"]:
+                    for act in a["actions"]:
+                        if not any(b["qa"] == a["name"] + SEP + act["name"] and b["pa"] for b in r["back"]):
+                            act["effects"].append({"kind": "assign", "forall": [], "v": C(True), "c": C(True),
+                                                   "f": {"name": f["name"], "args": [E("obj", name="o1") for _ in f["sig"]], "agent": ""}})
+            variant(base, "auxiliary-action-changes-original-fluent", aux_writes)
     res = judge(ctx, [c[0] for c in cases], "selftest")
     got = _fails(res)
     bad = 0
